@@ -140,7 +140,9 @@ class _FaultyPolicy(pythia.Policy):
       want = 0 if d == '0' else max(0, request.count + int(d))
       if want > request.count:
         bigger = pythia.SuggestRequest(
-            study_descriptor=request._study_descriptor, count=want)  # pylint: disable=protected-access
+            study_descriptor=vz.StudyDescriptor(
+                config=request.study_config, guid=request.study_guid, max_trial_id=request.max_trial_id),
+            count=want)
         return self._base.suggest(bigger)
       dec = self._base.suggest(request)
       return pythia.SuggestDecision(list(dec.suggestions)[:want], metadata=dec.metadata)
